@@ -188,7 +188,8 @@ Proof.
     intros c'; rewrite refs_dup_other by discriminate; apply U.
   - (* AAccept *)
     destruct (lookup (ah s) sh) as [[c|c|o|ms|c [|]|]|]; cbn [fst ak]; auto.
-    destruct (k_recv (ak s) c) as [m k'| |] eqn:Er; cbn [fst ak]; auto.
+    destruct (k_recv (ak s) c) as [m k'| |] eqn:Er; cbn [fst ak]; auto;
+      [|intros c'; etransitivity; [apply refs_close_le|apply U]].
     destruct (undecodable m); cbn [fst ak]; auto.
     destruct (k_recv_queue _ _ _ _ (gv_wf _ _ K) Er) as (_ & Fr).
     destruct (a_install (update (ah s) sh OGone ++ [(anext s, OR c)]) (S (anext s)) (m_rights m)) as [[hs' n'] out]. cbn [fst ak].
